@@ -173,7 +173,7 @@ pub fn run(em: &mut Emitter, rng: &mut Rng, thorough: bool) {
         for a in 0..=255u8 { decode_case(em, mode, &[a]); if mode == 0 || thorough { for b in 0..=255u8 { decode_case(em, mode, &[a, b]); } } }
         for _ in 0..2000 { let n = rng.range(3, 12) as usize; let mut c = rng.bytes(n); if rng.bool() { c[n - 1] &= 0x7f; } decode_case(em, mode, &c); }
     }
-    for _ in 0..(if thorough { 50000 } else { 5000 }) {
+    for _ in 0..(if thorough { 200_000 } else { 5000 }) {
         let n = rng.range(1, 8) as usize; let mut a = rng.bytes(n); a[n - 1] &= 0x7f;
         let mut b = a.clone();
         match rng.below(4) { 0 => {}, 1 => { let k = rng.below(n as u64) as usize; b[k] ^= 1 << rng.below(7); }, 2 => { b.push(1); }, _ => { b.pop(); } }
@@ -188,7 +188,7 @@ pub fn run(em: &mut Emitter, rng: &mut Rng, thorough: bool) {
               "1.2.3.4.5.6.7.8.9.10", "2.4294967295", "2.4294967215", "2.4294967216", "0.39", "0.40", "1.39", "1.40", "2.40",
               "3.1", "1.2 .3", " 1.2", "1.2\n", "1,2", "1.2.4294967296", "1.2.99999999999999999999", "1.2.00000000000000000001",
               "\u{661}.2", "1.2.\u{663}", "é.1", "2.+", "2.100.+0"] { fromstr_case(em, t); }
-    for _ in 0..(if thorough { 300000 } else { 30000 }) {
+    for _ in 0..(if thorough { 1_200_000 } else { 30000 }) {
         let n = rng.range(2, 6);
         let mut parts: Vec<String> = Vec::new();
         for k in 0..n {
@@ -214,7 +214,7 @@ pub fn run(em: &mut Emitter, rng: &mut Rng, thorough: bool) {
     }}}
     for a in 0..=127u8 { display_case(em, &[a]); for b in [0u8, 1, 0x7f] { display_case(em, &[a | 0x80, b]); display_case(em, &[a, b]); } }
     display_case(em, &[]);
-    for _ in 0..(if thorough { 200000 } else { 20000 }) {
+    for _ in 0..(if thorough { 800_000 } else { 20000 }) {
         // arcs -> reference encoding -> display
         let n = rng.range(2, 6) as usize;
         let mut arcs: Vec<u64> = vec![rng.below(3)];
